@@ -287,6 +287,56 @@ def check(run, M, tier, rule_prefix=""):
                 bad.append((cond_text(o.conds), T.show(o.ret, 500) if isinstance(o.ret, T.Poly) else o.ret))
         run.check(ok, "I7", "interp." + name, f.loc(), "wrapper flattens, broadcasts, zero-initialises, dispatches on ndim - 1 and reshapes back as documented",
                   "%s deviates from the documented wrapper: %s" % (name, bad[:1] or "different case split"), stmt="I7:" + name)
+    if not rule_prefix:
+        _i8(run, M)
+
+
+def _i8(run, M):
+    """the Interpolate / Gridding operators are the two functions with the constructor's (coord, kernel, width, param), and each builds its
+    adjoint from the very same four values -- so that the operator pair inherits the transpose relation I1-I4 establish for the kernels"""
+    from ..linopdesc import LinAlg, LV, _show, _t
+    run.rule("I8", "linop.Interpolate / linop.Gridding apply interp.interpolate / interp.gridding with the constructor's coord, kernel, width, param, and hand the same "
+                   "four values to the partner operator they return as adjoint")
+    alg = LinAlg(M)
+    n = 0
+    for cname, fq, partner in (("Interpolate", "sigpy.interp.interpolate", "Gridding"), ("Gridding", "sigpy.interp.gridding", "Interpolate")):
+        cls = M.cls("sigpy.linop." + cname)
+        for inst in alg.instances(cls):
+            f, res = alg.eval_method(inst, "_apply")
+            for conds, ret in res:
+                n += 1
+                at = ret.single_atom() if isinstance(ret, T.Poly) else None
+                bad = []
+                if at is None or at[0] != "app" or at[1] != "fn:" + fq:
+                    bad.append("returns %s, not %s(input, ...)" % (_show(ret)[:160], fq.split(".")[-1]))
+                else:
+                    got = {}
+                    for x in at[2]:
+                        xa = T.dec(x).single_atom() if isinstance(T.dec(x), T.Poly) else None
+                        if xa is not None and xa[0] == "app" and xa[1].startswith("kw:"):
+                            got[xa[1][3:]] = T.show(_t(T.dec(xa[2][0])), 100)
+                    for kw in ("coord", "kernel", "width", "param"):
+                        if got.get(kw) != kw:
+                            bad.append("%s receives %s for `%s`; the constructor was given `%s`" % (fq.split(".")[-1], got.get(kw, "its default"), kw, kw))
+                    if got.get("input") != "input":
+                        bad.append("the function is not applied to the operator's input")
+                run.check(not bad, "I8", cname + "._apply", f.loc(), "is %s(input, coord, kernel, width, param)" % fq.split(".")[-1],
+                          "%s._apply: %s" % (cname, "; ".join(bad[:3])), stmt="I8:apply:" + cname)
+            g, res = alg.eval_method(inst, "_adjoint_linop")
+            for conds, ret in res:
+                n += 1
+                bad = []
+                if not (isinstance(ret, LV) and ret.kind == "prim" and ret.cls.name == partner):
+                    bad.append("the adjoint is %s, not %s" % (_show(ret)[:120], partner))
+                else:
+                    for kw in ("coord", "kernel", "width", "param"):
+                        v = ret.attrs.get(kw)
+                        shown = T.show(_t(v), 100) if v is not None else "missing"
+                        if shown != kw:
+                            bad.append("the adjoint %s is built with %s = %s (the operator itself uses `%s`)" % (partner, kw, shown, kw))
+                run.check(not bad, "I8", cname + "._adjoint_linop", g.loc(), "%s with the same coord, kernel, width, param" % partner,
+                          "%s._adjoint_linop: %s" % (cname, "; ".join(bad[:3])), stmt="I8:adjoint:" + cname)
+    run.floor("I8", 4, n, "operator methods examined")
 
 
 def check_kernel_functions(run, M, rule, names=("_spline_kernel", "_kaiser_bessel_kernel")):
